@@ -648,6 +648,15 @@ fn apply(t: &mut Sink, m: &mut SM, op: &WOp, seq_no: usize, stats: &mut Stats) -
                 return Err(f11("nofit-outside", format!("{} that does not fit modified a byte outside every writable region (arena offset {})", name, i)));
             }
         }
+        // the rejected write appended nothing: the write cursor is where it was (every provided method checks the room before
+        // its first byte; "appends exactly the specified encoding ... and nothing else")
+        if !huge {
+            match catch_unwind(AssertUnwindSafe(|| t.remaining_mut())) {
+                Ok(now) if now == rem => {}
+                Ok(now) => return Err(f11("nofit-partial", format!("{} of {} bytes was rejected (panic) but moved the write cursor: remaining_mut() went from {} to {}", name, bytes.len(), rem, now))),
+                Err(_) => return Err(f11("nofit-partial", format!("remaining_mut() panicked after the rejected {}", name))),
+            }
+        }
         return Ok(false);
     }
     if r.is_err() {
@@ -995,6 +1004,10 @@ pub fn run(tier: &str, parity_odd: bool, shard: usize, nshards: usize, prop: &st
                         oracle::report::jstr(if parity_odd { "odd" } else { "even" })
                     );
                     rep.violate(f.property, &f.case, &format!("{} | target {:?} after writes {:?}", f.msg, spec, seq), &replay);
+                    // a write that lands outside the target's writable region is an out-of-bounds write of the crate (C02) as well
+                    if f.property != "C02" && (f.case.contains("outside") || f.case.contains("heap") || f.case.contains("guard")) {
+                        rep.violate("C02", &f.case, &format!("{} | target {:?} after writes {:?}", f.msg, spec, seq), &replay);
+                    }
                 }
             }
             if seqs % 150_000 == 1 {
